@@ -762,6 +762,75 @@ class Case:
         st["f"].close()
         st["f"] = nix.File.open(self.path, nix.FileMode.ReadWrite)
 
+    # ---- role links re-pointed while older handles of the HOLDER are alive -----------------------------------
+    def repoint_roles(self, f):
+        """positions / extents of a multi-tag, data of a feature, metadata of any entity, link of a section: two long-lived
+        handles of the holder that have both read the role; the role is re-pointed (or cleared) through one of them and
+        read through the other, through the first and through a fresh one - all must yield the new target itself."""
+        nix, rng, ctx = self.nix, self.rng, self.ctx
+        b = self.block(f)
+        secs = [f.sections["meta"], f.sections["same"], f.sections["meta"].sections["child"]]
+        arrs = [b.data_arrays[n] for n in ("same", "vec", "ints", "a")]
+        mtn = rng.choice(["same", "m2"])
+        cases = [("MultiTag.positions", lambda: b.multi_tags[mtn], "positions", arrs[:3], False),
+                 ("MultiTag.extents", lambda: b.multi_tags["m2"], "extents", arrs[:3], True),
+                 ("DataArray.metadata", lambda: b.data_arrays["b"], "metadata", secs, True),
+                 ("Tag.metadata", lambda: b.tags["t2"], "metadata", secs, True),
+                 ("Block.metadata", lambda: self.block(f), "metadata", secs, True),
+                 ("Section.link", lambda: f.sections["same"].sections["child"], "link", secs[:2], False)]
+        try:
+            if not len(b.tags["same"].features):
+                b.tags["same"].create_feature(arrs[0], nix.LinkType.Untagged)
+            # (a data frame is accepted only by a feature whose link type is Untagged)
+            frames = [b.data_frames["same"]] if b.tags["same"].features[0].link_type == nix.LinkType.Untagged else []
+            cases.append(("Feature.data", lambda: b.tags["same"].features[0], "data", arrs + frames, False))
+        except Exception:
+            ctx.count("repoint:feature_not_available")
+        for label, get, attr, targets, clearable in rng.sample(cases, rng.randint(2, len(cases))):
+            try:
+                h = [get(), get()]
+                for x in h:
+                    getattr(x, attr)             # both handles have read the role before it changes
+            except Exception as e:
+                from ..core import raised_in_library
+                if not raised_in_library(e):
+                    raise
+                self.viol("repoint:%s:read_raises_%s" % (label, type(e).__name__), {"error": repr(e)[:200]})
+                continue
+            for step in range(rng.randint(2, 4)):
+                w = rng.randrange(2)
+                tgt = None if (clearable and step and rng.random() < 0.3) else rng.choice(targets)
+                self.log.append("%s := %s via handle %d" % (label, getattr(tgt, "name", None), w))
+                try:
+                    if tgt is None and getattr(get(), attr) is None:
+                        continue                    # nothing to clear
+                    if tgt is None and attr == "metadata":
+                        delattr(h[w], attr)         # the documented way to clear a metadata link
+                    else:
+                        setattr(h[w], attr, tgt)
+                except Exception as e:
+                    from ..core import raised_in_library
+                    if not raised_in_library(e):
+                        raise
+                    self.viol("repoint:%s:assignment_raises_%s" % (label, type(e).__name__), {"target": getattr(tgt, "name", None), "error": repr(e)[:200]})
+                    break
+                ctx.count("roles_repointed")
+                for who, rh in (("writing_handle", h[w]), ("other_handle", h[1 - w]), ("fresh_handle", None)):
+                    try:
+                        got = getattr(rh if rh is not None else get(), attr)
+                    except Exception as e:
+                        self.viol("repoint:%s:read_raises_%s:%s" % (label, type(e).__name__, who), {"error": repr(e)[:200]})
+                        continue
+                    ctx.count("repointed_role_reads")
+                    want = None if tgt is None else tgt.id
+                    have = None if got is None else got.id
+                    if want != have:
+                        self.viol("repoint:%s:%s_yields_%s" % (label, who, "another_entity" if have and want else ("cleared_target" if have else "nothing")),
+                                  {"expected": want, "got": have, "got_name": getattr(got, "name", None)})
+                    elif got is not None and getattr(got, "name", None) != tgt.name:
+                        self.viol("repoint:%s:%s_has_other_content" % (label, who), {"expected_name": tgt.name, "got_name": got.name})
+                self.sigs.append(("repoint", label, "clear" if tgt is None else "set", w))
+
     def run(self):
         nix, rng = self.nix, self.rng
         from .. import clock
@@ -781,6 +850,8 @@ class Case:
                 self.dimension_links(st["f"])
             if part in ("membership", "both"):
                 self.membership(st["f"])
+            if rng.random() < 0.5:
+                self.repoint_roles(st["f"])
             if rng.random() < 0.35:
                 self.relink_after_copy(st)
         finally:
